@@ -12,6 +12,9 @@ SCHEMAS = {
             "mixed": {"foo": "INT", "Bar": "INT", "BAZ": "TEXT"}},
     "fixture": {"x": {"a": "INT", "b": "INT"}, "y": {"b": "INT", "c": "INT"}, "z": {"b": "INT", "c": "INT"}, "w": {"d": "TEXT", "e": "TEXT"}},
     "none": None,
+    # two databases holding a table of the same name: the unqualified name is ambiguous (lookups raise or return None
+    # depending on who asks), the qualified names and "u" are not
+    "amb": {"sales": {"t": {"a": "INT", "b": "TEXT"}, "u": {"a": "INT"}}, "staging": {"t": {"a": "INT", "c": "DATE"}}},
 }
 
 
@@ -174,7 +177,7 @@ def run_step(step, comps):
 
                 t = annotate_types(sqlglot.parse_one(sql, read=read), dialect=read)
                 return ["ok", [[s.alias_or_name, s.type.sql(read) if s.type else None] for s in t.selects]]
-            if op in ("optimize", "qualify", "annotate", "lineage", "rule"):
+            if op in ("optimize", "qualify", "annotate", "annotate_only", "lineage", "rule"):
                 from sqlglot.schema import MappingSchema
 
                 sname = step.get("schema", "xyz")
@@ -192,6 +195,12 @@ def run_step(step, comps):
                     from sqlglot.optimizer.qualify import qualify
 
                     return ["ok", qualify(tree, schema=schema, dialect=read).sql(read)]
+                if op == "annotate_only":
+                    # type annotation of a tree that was not qualified first: column types are looked up leniently
+                    from sqlglot.optimizer.annotate_types import annotate_types
+
+                    t = annotate_types(tree, schema=schema, dialect=read)
+                    return ["ok", [[s.alias_or_name, s.type.sql(read) if s.type else None] for s in (t.selects if hasattr(t, "selects") else [])]]
                 if op == "annotate":
                     from sqlglot.optimizer.annotate_types import annotate_types
                     from sqlglot.optimizer.qualify import qualify
